@@ -3,6 +3,7 @@ package engine
 import (
 	"crypto/sha256"
 	"fmt"
+	"github.com/nspcc-dev/neo-go/pkg/compiler"
 	"sort"
 
 	"github.com/nspcc-dev/neo-go/pkg/core/dao"
@@ -54,6 +55,7 @@ type voteOp struct {
 	kind  string // setA setB cheque alphaUpd candRm advance
 	who   int    // member number, -1 stranger, -2 the candidate itself
 	delta uint32
+	fwd   bool // the call is forwarded by a contract that assembles the decision id from two halves (a Buffer, not a ByteString)
 }
 
 type VoteDriver struct {
@@ -104,11 +106,28 @@ func NewVoteTimingDriver(n int) *VoteDriver {
 			d.ops = append(d.ops, voteOp{kind: k, who: i})
 		}
 	}
+	// the same decision voted for through a forwarding contract: the id arrives as another kind of byte array
+	for i := 0; i < n; i++ {
+		d.ops = append(d.ops, voteOp{kind: "setA", who: i, fwd: true})
+	}
 	for _, dl := range []uint32{1, 10, 19, 21} {
 		d.ops = append(d.ops, voteOp{kind: "advance", delta: dl})
 	}
 	return d
 }
+
+const voteFwdSrc = `package votefwd
+
+import (
+	"github.com/nspcc-dev/neo-go/pkg/interop"
+	"github.com/nspcc-dev/neo-go/pkg/interop/contract"
+)
+
+func SetConfig(neofs interop.Hash160, idHead, idTail, key, val []byte) {
+	id := append(idHead, idTail...)
+	contract.Call(neofs, "setConfig", contract.All, id, key, val)
+}
+`
 
 const c17Deposit = 100_0000_0000
 
@@ -129,6 +148,7 @@ func (d *VoteDriver) Build() *World {
 	// fund the contract (a deposit by U) and register the candidate X
 	w.Invoke(w.GasHash, []neotest.Signer{d.u.S}, "transfer", d.u.Hash, nf.Hash, int64(c17Deposit), nil)
 	w.Invoke(nf.Hash, []neotest.Signer{d.x.S}, "innerRingCandidateAdd", d.x.Pub())
+	w.Deploy("votefwd", CompileSource("votefwd", voteFwdSrc, &compiler.Options{Name: "votefwd", NoEventsCheck: true, NoPermissionsCheck: true, Permissions: WildPermissions()}), nil)
 	w.Track("U", d.u.Hash, false)
 	w.Track("neofs", nf.Hash, false)
 	w.Freeze()
@@ -161,6 +181,9 @@ func (d *VoteDriver) OpName(_ *Node, i int) string {
 	case "advance":
 		return fmt.Sprintf("advance %d blocks", o.delta)
 	case "setA":
+		if o.fwd {
+			return "setConfig(idA,k,v1) forwarded by a contract, signed by " + d.who(o.who)
+		}
 		return "setConfig(idA,k,v1) by " + d.who(o.who)
 	case "setB":
 		return "setConfig(idB,k,v2) by " + d.who(o.who)
@@ -224,6 +247,9 @@ func (d *VoteDriver) Step(x *Exec, n *Node, i int) StepResult {
 	case "setA":
 		id = "idA"
 		scr = Script(h, "setConfig", voteID(id), []byte("k"), []byte("v1"))
+		if o.fwd {
+			scr = Script(w.Contracts["votefwd"].Hash, "setConfig", h, voteID(id)[:16], voteID(id)[16:], []byte("k"), []byte("v1"))
+		}
 	case "setB":
 		id = "idB"
 		scr = Script(h, "setConfig", voteID(id), []byte("k"), []byte("v2"))
